@@ -531,6 +531,52 @@ impl Scenario for Sched {
     }
     fn make(&self, seed: u64, case: u64, tier: Tier) -> Trial {
         let mut rng = Rng::new(seed);
+        // an error flood: more than 10 000 messages from several links in one run (one case of the quick tier,
+        // 1 in 3000 otherwise)
+        let flood = match tier {
+            Tier::Quick => case == 401,
+            Tier::Thorough => case % 3000 == 401,
+        };
+        if flood {
+            let mut cfg = GenCfg::swarm(&mut rng, false);
+            cfg.n_links = rng.range(3, 5) as usize;
+            cfg.hbfs = (120, 150);
+            cfg.data_pages = (2, 2);
+            cfg.triggers = (1, 1);
+            cfg.data_words = (12, 14);
+            cfg.p_no_data = 0;
+            cfg.p_split = 0;
+            cfg.p_cdw = 0;
+            let mut st = gen_conforming(&cfg, &mut rng);
+            let mut n_bad = 0u64;
+            for l in st.links.iter_mut() {
+                for pk in l.packets.iter_mut() {
+                    for w in pk.words.iter_mut() {
+                        if w.kind == itsgen::words::Kind::Data {
+                            w.word[9] = *rng.pick(&[0x9Au8, 0x10, 0xF3]);
+                            n_bad += 1;
+                        }
+                    }
+                }
+            }
+            let mode_i = if rng.chance(1, 2) { 3 } else { 1 };
+            let mut parts = s(CHECK_MODES[mode_i]);
+            let muted = rng.chance(1, 2);
+            if muted {
+                parts.push("-m".into());
+            }
+            parts.extend(s(&["-S", "@STATS@", "-D", "json"]));
+            let mut base = specgen::spec(pick_input_mode(&mut rng), &parts, st.bytes());
+            base.stats_ext = "json".into();
+            base.timeout_ms = 300_000;
+            let mut variants = Vec::new();
+            for _ in 0..4 {
+                let mut v = base.clone();
+                swarm_schedule(&mut v, &mut rng, 60_000);
+                variants.push(v);
+            }
+            return Trial::Sched { base, variants, label: format!("{} | error flood ({n_bad} bad words){}", CHECK_MODES[mode_i].join(" "), if muted { " -m" } else { "" }) };
+        }
         let view = case % 7 == 6;
         let mode_i = if view { 0 } else { 2 + (case % 3) as usize };
         let stave = mode_i == 4;
@@ -541,9 +587,29 @@ impl Scenario for Sched {
         }
         // stave mode: several FEE IDs may share a link number (a link filter then selects several validators)
         cfg.share_link_ids = stave && rng.chance(1, 2);
+        // 1 in 5 stave cases: every stave sends planned frames in which lanes announce a fatal state (and stay
+        // silent afterwards): what the validators say about that, on several FEE IDs at once
+        let mut fatal_plan = false;
+        if stave && rng.chance(1, 5) {
+            let barrel = *rng.pick(&[itsgen::gen::Barrel::Inner, itsgen::gen::Barrel::Middle, itsgen::gen::Barrel::Outer]);
+            for _ in 0..20 {
+                let (plan, kinds) = frame_plan(barrel, 6, &mut rng);
+                if kinds.iter().any(|k| k.contains("fatal")) {
+                    cfg.barrels = Some(vec![barrel]);
+                    cfg.frame_plan = plan;
+                    cfg.plan_all_links = true;
+                    cfg.n_links = rng.range(2, 6) as usize;
+                    fatal_plan = true;
+                    break;
+                }
+            }
+        }
         let mut st = gen_conforming(&cfg, &mut rng);
         let n_faults = if rng.chance(1, 5) { 0 } else { rng.range(1, 6) };
         let mut label = String::new();
+        if fatal_plan {
+            label.push_str("lanes-announce-fatal-on-every-stave,");
+        }
         for _ in 0..n_faults {
             // size-preserving and framing-preserving faults only: a fatal framing error is excluded
             let f = loop {
